@@ -70,10 +70,10 @@ def base_env(spec, extents, sizes=None):
 
 
 class CaseResult:
-    __slots__ = ("ok", "kind", "msg", "env", "outputs")
+    __slots__ = ("ok", "kind", "msg", "env", "outputs", "world")
 
-    def __init__(self, ok, kind=None, msg=None, env=None, outputs=None):
-        self.ok, self.kind, self.msg, self.env, self.outputs = ok, kind, msg, env, outputs
+    def __init__(self, ok, kind=None, msg=None, env=None, outputs=None, world=None):
+        self.ok, self.kind, self.msg, self.env, self.outputs, self.world = ok, kind, msg, env, outputs, world
 
 
 def snapshot(t):
@@ -104,10 +104,16 @@ def names_check(spec, env, in_objs, before):
 
 
 def run_case(code, spec, extents, ins, sizes=None, policy="M", extra_env=None, check_names=True,
-             check_extent=True, outputs_only_last=False, keep_env=False, check_values=True, c07=False):
+             check_extent=True, outputs_only_last=False, keep_env=False, check_values=True, c07=False, standins=False):
     """Execute compiled emitted code on one input; compare every Einsum output with dense evaluation."""
     hf.reset_state(policy)
     env = base_env(spec, extents, sizes)
+    world = None
+    if standins:
+        from mc.model.standins import World
+        world = World()
+        hf.State.world = world
+        env.update(world.env())
     if extra_env:
         env.update(extra_env)
     in_objs = {}
@@ -155,7 +161,7 @@ def run_case(code, spec, extents, ins, sizes=None, policy="M", extra_env=None, c
                     if not isinstance(c, int) or not (0 <= c < extents[ids[d]]):
                         return CaseResult(False, "out-of-extent", "%s holds coordinate %r on rank %s (extent %d)"
                                           % (var, c, ids[d], extents[ids[d]]))
-    return CaseResult(True, env=env if keep_env else None, outputs=got_all)
+    return CaseResult(True, env=env if keep_env else None, outputs=got_all, world=world)
 
 
 def fmt(d):
